@@ -54,6 +54,12 @@ pub struct ImageDesc {
     /// host cluster (to force straddling)
     #[serde(default)]
     pub comp_start: usize,
+    /// host file that ends inside its last cluster, at any byte: if that
+    /// cluster is a data cluster only its first `eof_cut[0]` blocks carry
+    /// data, the rest is zero, and the file ends `eof_cut[1]` (< block size)
+    /// bytes behind them
+    #[serde(default)]
+    pub eof_cut: Option<(usize, usize)>,
 }
 fn three() -> u32 {
     3
@@ -75,6 +81,8 @@ pub struct Truth {
     /// here: per guest cluster the wid that supplies content (0 = zeros/none)
     pub wids: Vec<u32>,
     pub comp: Vec<CompTruth>,
+    /// (guest cluster, first block of it that reads as zeros) of an eof_cut
+    pub tail_zero: Option<(usize, usize)>,
     pub host_clusters: usize,
     pub l1_cluster: usize,
     pub rt_cluster: usize,
@@ -247,6 +255,7 @@ pub fn build(desc: &ImageDesc, bs: usize) -> (Vec<u8>, Truth) {
         kinds: vec!["u".to_string(); desc.vclusters],
         wids: vec![0; desc.vclusters],
         comp: Vec::new(),
+        tail_zero: None,
         host_clusters,
         l1_cluster: l1_c,
         rt_cluster: rt_c,
@@ -366,6 +375,19 @@ pub fn build(desc: &ImageDesc, bs: usize) -> (Vec<u8>, Truth) {
         put64(&mut img, 8, p as u64);
         put32(&mut img, 16, name.len() as u32);
         img[p..p + name.len()].copy_from_slice(name.as_bytes());
+    }
+    if let Some((keep, extra)) = desc.eof_cut {
+        let last = host_clusters - 1;
+        let bpc = cs / bs;
+        let g = desc.clusters.iter().find(|c| c.kind == "data" && c.g / l2n < l1_hdr && find(&Item::Data(c.g)) == last);
+        if let (Some(c), true) = (g, keep >= 1 && keep < bpc && extra < bs) {
+            let from = last * cs + keep * bs;
+            for b in img[from..].iter_mut() {
+                *b = 0;
+            }
+            img.truncate(from + extra);
+            truth.tail_zero = Some((c.g, keep));
+        }
     }
     (img, truth)
 }
